@@ -148,9 +148,19 @@ def gen(rng, tier, run):
         if pos >= 0 and rng.random() < 0.6:
             off = rng.randrange(pos + 1, pos + 28)
         return {'file': name, 'offset': min(off, len(data)), 'variant': 'trailing', 'fresh': False}
-    fresh = rng.random() < 0.012
+    fresh = rng.random() < 0.016
     if fresh and rng.random() < 0.5:
         off = len(info['data'])            # the complete listing, first thing parsed by a process
+    if fresh and rng.random() < 0.5:
+        # with debug logging on in that process; the listings kept as examples of failures (error paths of the builders)
+        # half of the time, cut behind their last complete edition or not at all
+        fresh = 'debug'
+        failing = [n for n in small if os.path.basename(n).startswith('failure')]
+        if failing and rng.random() < 0.5:
+            name = rng.choice(failing)
+            info = files[name]
+            size = len(info['data'])
+            off = size if rng.random() < 0.4 else rng.randrange(size - min(size, 400), size + 1)
     return {'file': name, 'offset': min(off, len(info['data'])), 'variant': variant, 'fresh': fresh}
 
 
@@ -350,7 +360,15 @@ def complete_result(case):
 
 FRESH_SCRIPT = '''
 import sys, json, logging
-logging.disable(logging.CRITICAL)
+if len(sys.argv) > 3 and sys.argv[3] == "debug":
+    # debug logging on (what `valjean -v` gives), nothing sent to the terminal
+    import valjean
+    _log = logging.getLogger("valjean")
+    _log.setLevel(logging.DEBUG)
+    for _h in _log.handlers:
+        _h.setLevel(logging.CRITICAL + 10)
+else:
+    logging.disable(logging.CRITICAL)
 sys.path.insert(0, sys.argv[2])
 from props import c11
 out = c11.scan_and_parse(sys.argv[1])
@@ -359,15 +377,16 @@ print("RESULT " + json.dumps({k: out[k] for k in ("outcome", "detail", "parse") 
 '''
 
 
-def run_fresh(path):
-    """the same prefix in a brand-new interpreter: nothing was parsed before in that process"""
+def run_fresh(path, mode='quiet'):
+    """the same prefix in a brand-new interpreter: nothing was parsed before in that process (`mode` 'debug': with debug
+    logging on in that process)"""
     import json
     import subprocess
     import sys
     harness = os.path.dirname(os.path.dirname(os.path.abspath(__file__)))
     env = dict(os.environ, PYTHONPATH=repo() + os.pathsep + os.environ.get('PYTHONPATH', ''))
     try:
-        proc = subprocess.run([sys.executable, '-c', FRESH_SCRIPT, path, harness], stdout=subprocess.PIPE, stderr=subprocess.DEVNULL,
+        proc = subprocess.run([sys.executable, '-c', FRESH_SCRIPT, path, harness, mode], stdout=subprocess.PIPE, stderr=subprocess.DEVNULL,
                               text=True, timeout=120, env=env, check=False)
     except subprocess.TimeoutExpired:
         return {'outcome': 'timeout'}
@@ -388,7 +407,7 @@ def run_impl(case, run):
             fobj.write(prefix)
         out = scan_and_parse(path)
         if case.get('fresh'):
-            out['fresh'] = run_fresh(path)
+            out['fresh'] = run_fresh(path, 'debug' if case['fresh'] == 'debug' else 'quiet')
         failed = out['outcome'] == 'ParserException' or any(v[0] == 'ParserException' for v in out.get('parse', {}).values())
         _PROBE['n'] = _PROBE.get('n', 0) + (1 if failed else 0)
         if failed and (_PROBE['n'] <= 3 or _PROBE['n'] % 5 == 0) and not _PROBE.get('hung'):
